@@ -45,6 +45,8 @@ def _element_reads(t):
             inner = nd[2]
         elif nd[0] == "m" and len(nd) > 3 and nd[3] == 1:
             inner = nd[1]
+        elif nd[0] == "m" and len(nd) > 3 and nd[3] == 0 and isinstance(nd[2], str) and nd[2].split("::")[0].endswith("lp_status_info"):
+            inner = nd[1]                     # lp->basisstat.optimal: a flag of the embedded status record, plain memory until a run sets it
         if inner is None:
             continue
         x = strip(inner)
